@@ -93,6 +93,10 @@ func buildTree(spec treeSpec, rec *runRecord) []*cobra.Command {
 				fs.CountP(fsp.Name, fsp.Short, "usage "+fsp.Name)
 			case "stringSlice":
 				fs.StringSliceP(fsp.Name, fsp.Short, nil, "usage "+fsp.Name)
+			case "stringArray":
+				fs.StringArrayP(fsp.Name, fsp.Short, nil, "usage "+fsp.Name)
+			case "ipNetSlice":
+				fs.IPNetSliceP(fsp.Name, fsp.Short, nil, "usage "+fsp.Name)
 			case "optString":
 				fs.StringP(fsp.Name, fsp.Short, "", "usage "+fsp.Name)
 				fs.Lookup(fsp.Name).NoOptDefVal = "dflt"
@@ -318,6 +322,9 @@ func runParse(raw json.RawMessage) interface{} {
 			rec = executeLine(in.Tree, line)
 			if strings.Contains(rec.Err, "needs an argument") {
 				rec = executeLine(in.Tree, append(line, "VAL"))
+				if strings.Contains(rec.Err, "CIDR") {
+					rec = executeLine(in.Tree, append(line, "10.0.0.0/8")) // a value the flag's type accepts
+				}
 				withValue = true
 			}
 		} else {
@@ -357,7 +364,7 @@ func genTree(r *rng) treeSpec {
 				continue
 			}
 			usedName[name] = true
-			f := flagSpec{Name: name, Kind: pick(r, []string{"bool", "bool", "string", "string", "count", "stringSlice", "optString"})}
+			f := flagSpec{Name: name, Kind: pick(r, []string{"bool", "bool", "string", "string", "count", "stringSlice", "optString", "bool", "string", "stringSlice", "count", "optString", "stringArray", "ipNetSlice"})}
 			f.Persistent = r.chance(25)
 			if f.Persistent {
 				// persistent flags live in a name space of their own (cobra panics when an inherited
@@ -425,13 +432,23 @@ func genLine(r *rng, t treeSpec) []string {
 	words := []string{}
 	cur := 0
 	steps := r.intn(6)
-	takesValue := func(f flagSpec) bool { return f.Kind == "string" || f.Kind == "stringSlice" }
+	takesValue := func(f flagSpec) bool {
+		return f.Kind == "string" || f.Kind == "stringSlice" || f.Kind == "stringArray" || f.Kind == "ipNetSlice"
+	}
 	for s := 0; s < steps; s++ {
 		fl := flagsOf(t, cur)
 		switch k := r.intn(12); {
 		case k < 5 && len(fl) > 0:
 			f := pick(r, fl)
 			switch {
+			case f.Kind == "ipNetSlice":
+				// mostly values the flag accepts
+				v := pick(r, []string{"10.0.0.0/8", "10.1.0.0/16", "10.0.0.0/8", "v1"})
+				if r.chance(50) {
+					words = append(words, "--"+f.Name, v)
+				} else {
+					words = append(words, "--"+f.Name+"="+v)
+				}
 			case takesValue(f) && r.chance(40):
 				words = append(words, "--"+f.Name, pick(r, []string{"v1", "v2", "--", "sub", "-x", ""}))
 			case takesValue(f) && r.chance(50):
@@ -545,6 +562,53 @@ func genParse(r *rng, tier string) interface{} {
 		}
 		given := pick(r, [][]string{{"--name", "x"}, {"--id", "y"}, {"--all"}, {}})
 		return parseIn{Tree: t, Words: append(append(path, given...), pick(r, []string{"-", "--", "--a"}))}
+	}
+	if r.chance(7) {
+		// a shorthand series under the cursor after an earlier flag word that took no separate value
+		// (`--verbose -a<TAB>`, `-v -a<TAB>`, `--name=x -ab<TAB>`): what was given so far decides what is still offered
+		k := r.intn(len(t.Cmds))
+		t.Cmds[k].NoFlagParse = false
+		noArg := []flagSpec{}
+		for _, f := range flagsOf(t, k) {
+			if (f.Kind == "bool" || f.Kind == "count" || f.Kind == "optString") && f.Short != "" && !f.Hidden && !f.Deprecated {
+				noArg = append(noArg, f)
+			}
+		}
+		if len(noArg) >= 1 {
+			path := []string{}
+			for p := k; p > 0; p = t.Cmds[p].Parent {
+				path = append([]string{t.Cmds[p].Name}, path...)
+			}
+			first := pick(r, noArg)
+			before := pick(r, []string{"--" + first.Name, "-" + first.Short, "-" + first.Short + first.Short})
+			cur := "-" + pick(r, noArg).Short
+			if r.chance(40) {
+				cur += pick(r, noArg).Short
+			}
+			words := append(path, before)
+			if r.chance(30) {
+				words = append(words, "pos")
+			}
+			return parseIn{Tree: t, Words: append(words, cur)}
+		}
+	}
+	if r.chance(4) {
+		// a command that stops parsing flags at the first positional: a flag-like word after it is a positional
+		k := r.intn(len(t.Cmds))
+		t.Cmds[k].Interspersed = false
+		t.Cmds[k].NoFlagParse = false
+		path := []string{}
+		for p := k; p > 0; p = t.Cmds[p].Parent {
+			path = append([]string{t.Cmds[p].Name}, path...)
+		}
+		letters := []string{"b", "x"}
+		for _, f := range flagsOf(t, k) {
+			if f.Short != "" {
+				letters = append(letters, f.Short)
+			}
+		}
+		l := pick(r, letters)
+		return parseIn{Tree: t, Words: append(append(path, "p1"), pick(r, []string{"-" + l, "-" + l + l, "-", "--", ""}))}
 	}
 	if r.chance(6) && len(t.Cmds) > 1 {
 		// a word the parent's parser rejects (unknown flag, bad value), then a sub-command - also one that parses
